@@ -9,7 +9,7 @@
    consumed (POSTCONDITION AllConsumed); each event's verdict (ok / skip / a
    diagnosis) goes to the verdict file, so that one rejected event never hides
    the rest of the trace. *)
-EXTENDS SemOverflow, AsCodedOverflow, SemScaled, SemRounding, AsCodedRounding, SemElastic, SemSqrt, SemFraction, SemWide, SemNative, SemParse, SemMath, TLC, TLCExt, Json, IOUtils, CSV
+EXTENDS SemOverflow, AsCodedOverflow, SemScaled, SemRounding, AsCodedRounding, SemElastic, SemSqrt, SemFraction, SemWide, SemNative, SemParse, SemMath, AsCodedToChars, TLC, TLCExt, Json, IOUtils, CSV
 
 Tr == ndJsonDeserialize(IOEnv.TRACE)
 Insts == ndJsonDeserialize(IOEnv.INSTS)
@@ -83,6 +83,13 @@ AsCoded(e, i) ==
       [] e.e = "RDiv" ->
            MatchesAsCodedRound(AsCodedRoundDiv(i.tag, TV(AsIntT(i.lt), J(e.l)), TV(AsIntT(i.rt), J(e.r))), e.out, J(e.res))
       [] e.e = "ElBin" -> AsCodedElBin(e, i)
+      [] e.e \in {"Tc", "TcStatic"} ->
+           \* scaled_integer text: the as-coded descale + layout model must predict the failing assertion / the hang
+           IF i.lt.k # "scaled" THEN FALSE
+           ELSE LET sigMax == IF TDigits(AsIntT(InnerT(i.lt))) > 63 THEN MaxOf(64, FALSE) ELSE MaxOf(64, TRUE)
+                    cap == IF e.e = "Tc" THEN e.cap ELSE i.capacity
+                    p == Predict(J(e.v), ExpOf(i.lt), TextRadix(i.lt), sigMax, cap)
+                IN (e.out = "unreachable" /\ p = "assert") \/ (e.out = "timeout" /\ p = "hang")
       [] OTHER -> FALSE
 
 \* The verdict of event k is kept in TLC register k (re-evaluating a step is idempotent); all
